@@ -174,6 +174,8 @@ func checkC05(c *core.Ctx) error {
 	checkRotationOffsets(c)
 	checkPerIterationAccumulators(c)
 	checkHouseholderVector(c)
+	checkFactorAccumulation(c)
+	checkEigenvectorStale(c)
 	return nil
 }
 
